@@ -205,14 +205,15 @@ def call_builtin(ex, n, args, kw):
     if n == 'enumerate':
         return list(enumerate(ex.iterate(args[0])))
     if n == 'list':
+        if args and isinstance(args[0], LazyMap):
+            return args[0]
         return list(ex.iterate(args[0])) if args else []
     if n == 'tuple':
         return tuple(ex.iterate(args[0])) if args else ()
     if n == 'dict':
         return dict(*args, **kw)
     if n == 'map':
-        f = args[0]
-        return [ex.call(f, [x], {}) for x in ex.iterate(args[1])]
+        return map_builtin(ex, args[0], args[1])
     if n == 'print':
         ex.event('print', args)
         return None
@@ -494,6 +495,8 @@ def _arr(ex, x):
 def np_array(ex, x, dtype=None, **kw):
     from .interp import Obj as _O
     d = as_dtype(dtype)
+    if isinstance(x, LazyMap):
+        return array_of_lazymap(ex, x)
     if x is None and d is None:
         return None      # 0-d object array holding None: every arithmetic operation on it raises TypeError, exactly like None
     if isinstance(x, (str, FStr)) or x is None or isinstance(x, Obj):
@@ -1043,4 +1046,155 @@ def t_time(ex):
     """wall clock: a fresh unconstrained value, tagged so that frame checks can see whether it flows into a result"""
     v = z3.Real(f'nondet_time!{next(ex.fresh)}')
     ex.event('nondet', 'time', ex.where())
+    return v
+
+
+# ------------------------------------------------------------------------------------------ np.where, map, random
+class WhereArr(Arr):
+    """np.where(c)[0] for a 1-D boolean array c: the increasing enumeration of {i | c[i]}.  Its length is data dependent;
+    it can be iterated with a loop invariant (ForWhereSpec), passed to np.random.choice, or - when c has one true element
+    per block of M (checked) - indexed explicitly."""
+    def __init__(self, ex, cond):
+        cnt = ex.newvar('nwhere', 'int')
+        ex.assume(z3.And(cnt >= 0, cnt <= tonum(cond.shape[0])))
+        super().__init__([cnt], self._elem, 'int')
+        self.cond = cond
+        self.ex = ex
+
+    def _elem(self, idx):
+        raise Unsupported('element of np.where(...) by rank (no block structure known)')
+
+
+@ext('numpy.where')
+def np_where(ex, c, *rest):
+    if rest:
+        if len(rest) != 2:
+            raise SymRaise('ValueError', 'either both or neither of x and y should be given')
+        x, y = rest
+        return elementwise(ex, lambda cc, a, b: s_ite(toz(tobool(cc)), a, b) if not isinstance(tobool(cc), bool) else (a if tobool(cc) else b), [c, x, y],
+                           kmax(arrays._okind(x), arrays._okind(y)))
+    c = _arr(ex, c)
+    if c.ndim != 1:
+        raise Unsupported('np.where on nd arrays')
+    meta = getattr(c, 'meta', None) or {}
+    if 'onehot_blocks' in meta:
+        M, d, S = meta['onehot_blocks']
+        i = ex.newvar('i', 'int')
+        hit = tobool(c.elem((i,)))
+        claim = z3.Implies(z3.And(i >= 0, i < tonum(S) * M), toz(hit) == (i % M == tonum(d(i / M))))
+        rng = z3.Implies(z3.And(i >= 0, i < tonum(S)), z3.And(tonum(d(i)) >= 0, tonum(d(i)) < M))
+        if ex.entails(tobool(s_eq(c.shape[0], s_mul(S, M)))) and ex.entails(claim) and ex.entails(rng):
+            out = Arr([S], lambda idx: s_add(s_mul(idx[0], M), d(idx[0])), 'int')
+            return (out,)
+        raise Unsupported('one-hot block structure claimed for np.where could not be established')
+    return (WhereArr(ex, c),)
+
+
+class LazyMap:
+    def __init__(self, f, arr):
+        self.f = f
+        self.arr = arr
+
+
+def map_builtin(ex, f, seq):
+    if isinstance(seq, Arr) and not isinstance(conc(seq.shape[0]), int):
+        return LazyMap(f, seq)
+    return [ex.call(f, [x], {}) for x in ex.iterate(seq)]
+
+
+def array_of_lazymap(ex, lm):
+    a = lm.arr
+    if a.ndim != 1:
+        raise Unsupported('map over nd array')
+    sv = z3.Int(f'mapidx!{next(ex.fresh)}')
+    ex.assume(z3.And(sv >= 0, sv < tonum(a.shape[0])))
+    r = ex.call(lm.f, [a.elem((sv,))], {})
+    if isinstance(r, np.ndarray):
+        r = lift(r)
+    if not isinstance(r, Arr) or not all(isinstance(conc(d), int) for d in r.shape):
+        raise Unsupported('map result is not an array of concrete shape')
+    rel = r.elem
+
+    def elem(idx):
+        v = rel(tuple(idx[1:]))
+        s = idx[0]
+        if isz(v):
+            return z3.substitute(v, (sv, toz(s)))
+        if isinstance(v, Cx):
+            return Cx(z3.substitute(v.re, (sv, toz(s))) if isz(v.re) else v.re, z3.substitute(v.im, (sv, toz(s))) if isz(v.im) else v.im)
+        return v
+    return Arr([a.shape[0]] + list(r.shape), elem, r.kind, np_dtype=r.np_dtype)
+
+
+@ext('numpy.random.randint')
+def rnd_randint(ex, lo, hi=None, size=None, **kw):
+    if size is not None:
+        raise Unsupported('randint with size')
+    if hi is None:
+        lo, hi = 0, lo
+    v = ex.newvar('randint', 'int')
+    ex.event('rng', 'randint', ex.where())
+    ex.defined(tobool(s_cmp('Lt', lo, hi)), 'randint: low >= high')
+    ex.assume(z3.And(v >= tonum(lo), v < tonum(hi)))
+    return v
+
+
+@ext('numpy.random.choice')
+def rnd_choice(ex, a, size=None, **kw):
+    if size is not None:
+        raise Unsupported('choice with size')
+    ex.event('rng', 'choice', ex.where())
+    if isinstance(a, WhereArr):
+        c = a.cond
+        n = conc(c.shape[0])
+        v = ex.newvar('choice', 'int')
+        if isinstance(n, int) and n <= 512:
+            nonempty = z3.Or(*[toz(tobool(c.elem((j,)))) for j in range(n)]) if n else z3.BoolVal(False)
+        else:
+            raise Unsupported('choice from np.where over a symbolic range')
+        ex.defined(nonempty, 'np.random.choice from an empty selection')
+        ex.assume(z3.And(v >= 0, v < n))
+        ex.assume(toz(tobool(c.elem((v,)))))
+        return v
+    a = _arr(ex, a) if not is_scalar(a) else a
+    if isinstance(a, Arr) and isinstance(conc(a.shape[0]), int):
+        k = ex.newvar('choice_idx', 'int')
+        n = conc(a.shape[0])
+        if n == 0:
+            raise SymRaise('ValueError')
+        ex.assume(z3.And(k >= 0, k < n))
+        return a.elem((k,))
+    raise Unsupported('np.random.choice argument')
+
+
+class RandArr(Arr):
+    """array drawn from numpy's global RNG: unconstrained values carrying a distribution tag"""
+    pass
+
+
+def _randarr(ex, shape, family, mean, std):
+    k = next(ex.fresh)
+    f = z3.Function(f'rand_{family}!{k}', *([z3.IntSort()] * len(shape)), z3.RealSort())
+    a = RandArr(shape, lambda idx: f(*[tonum(i) for i in idx]), 'float')
+    a.dist = {'family': family, 'mean': mean, 'std': std, 'id': k}
+    ex.event('rng', family, ex.where())
+    ex.__dict__.setdefault('draws', []).append(a)
+    return a
+
+
+@ext('numpy.random.normal')
+def rnd_normal(ex, loc=0, scale=1, size=None, **kw):
+    if size is None:
+        raise Unsupported('scalar normal draw')
+    shape = list(size) if isinstance(size, (tuple, list)) else [size]
+    return _randarr(ex, shape, 'normal', loc, scale)
+
+
+@ext('numpy.random.randn')
+def rnd_randn(ex, *shape):
+    return _randarr(ex, list(shape), 'normal', 0, 1)
+
+
+@ext('numpy.uint8', 'numpy.int64', 'numpy.float64')
+def np_scalar_type(ex, v):
     return v
